@@ -24,6 +24,7 @@ fn mods_menu(rich: bool) -> Vec<ModSpec> {
         ModSpec::Random(Some(1337.0)),
         ModSpec::HoldOff,
         ModSpec::Invert,
+        ModSpec::HoIn(Some(2.0)),
     ];
     if rich {
         v.extend([
